@@ -281,6 +281,9 @@ def _eval_atom(a, env):
             if u.denominator != 1 or v.denominator != 1:
                 raise CannotEvaluate('bit operation on a non-integer')
             return Fraction(int(u) & int(v) if a.name.endswith('And') else int(u) | int(v))
+        if a.name == 'isnan' and len(a.args) == 1 and isinstance(a.args[0], Rat):
+            evaluate(a.args[0], env)        # a value that evaluates to a rational number is not NaN
+            return Fraction(0)
         hook = env.get('__read__') if isinstance(env, dict) else None
         if hook is not None and a.name in ('read', 'cell?', 'getitem'):
             # array contents supplied by the rule: hook(array key, index values) -> value (or raises CannotEvaluate)
